@@ -2,6 +2,8 @@
 package c03
 
 import (
+	"math/bits"
+	"runtime"
 	"time"
 	"bytes"
 	"context"
@@ -35,9 +37,15 @@ type RunSpec struct {
 	NCerts   int
 	Comments []string
 	Validity uint64
+	// KeyLabel: the handler's "key_label" configuration option ("" = left out)
+	KeyLabel string
 	// Multi: 0 = the real regular handler (one request); 2..3 = a harness handler whose single agent
 	// key (the repository's AgentKey) carries that many signing requests
 	Multi int
+	// KeyAlgo / PrivLabel (Multi runs): the agent key's algorithm (0 = default, else key.PublicKeyAlgo+1:
+	// RSA2048, RSA4096, P-256, P-384, P-521, Ed25519) and private-key label
+	KeyAlgo   int
+	PrivLabel string
 	// Window: the validity window the CA stamps (see vh.CABehaviour.Window)
 	Window string
 	// Reuse: run with the real handler object (and forwarded connection) built by the latest earlier run
@@ -70,6 +78,10 @@ func gen(t *rapid.T) Case {
 			NCerts:   rapid.IntRange(1, 3).Draw(t, l+"NCerts"),
 			Validity: rapid.SampledFrom([]uint64{1, 2, 3599, 3600, 43200, 1 << 31, 315360000, 0}).Draw(t, l+"Validity"),
 		}
+		if rapid.IntRange(0, 30).Draw(t, l+"ManyCerts") == 14 {
+			r.NCerts = rapid.SampledFrom([]int{8, 16, 20}).Draw(t, l+"NCertsMany") // nothing bounds the number of certificates in a reply
+		}
+		r.KeyLabel = rapid.SampledFrom([]string{"", "", "", "regular", "prod-east", "paranoids.regular", "my label", "x", "paranoids"}).Draw(t, l+"KeyLabel")
 		if r.Validity == 0 {
 			r.Validity = rapid.Uint64Range(1, 315360000).Draw(t, l+"ValidityAny")
 		}
@@ -78,6 +90,11 @@ func gen(t *rapid.T) Case {
 		}
 		if rapid.IntRange(0, 3).Draw(t, l+"IsMulti") == 0 {
 			r.Multi = rapid.IntRange(2, 3).Draw(t, l+"Multi")
+			r.KeyAlgo = rapid.SampledFrom([]int{0, 0, 1, 3, 4, 5, 6, 6}).Draw(t, l+"KeyAlgo")
+			if rapid.IntRange(0, 40).Draw(t, l+"RSA4096") == 17 {
+				r.KeyAlgo = 2
+			}
+			r.PrivLabel = rapid.SampledFrom([]string{"", "", "private-key", "verif-key", "paranoids.regular-key", "é"}).Draw(t, l+"PrivLabel")
 			if r.Outcome == "noslot" {
 				r.Outcome = "caerr"
 			}
@@ -175,7 +192,7 @@ func exec(c Case) (vh.Outcome, error) {
 		if r.Outcome == "noslot" {
 			ids = map[string]string{"rsa": "other"}
 		}
-		conf, cerr := vh.WriteGensignConfig(dir, vh.HandlerConf{PubKeyDir: dir, ValiditySec: r.Validity, KeyIdentifiers: ids})
+		conf, cerr := vh.WriteGensignConfig(dir, vh.HandlerConf{PubKeyDir: dir, ValiditySec: r.Validity, KeyIdentifiers: ids, KeyLabel: r.KeyLabel})
 		if cerr != nil {
 			return out, vh.Errf("%s: configuration did not load: %v", where, cerr)
 		}
@@ -217,7 +234,7 @@ func exec(c Case) (vh.Outcome, error) {
 		checkValidity := r.Validity
 		if r.Multi > 0 {
 			hname, checkValidity = "multi", 3600
-			fh := &vh.FakeHandler{ID: "m0", Accept: r.Outcome != "noauth", Log: &vh.HandlerLog{}, Agent: agent.NewClient(conn), NKeys: 1, NReqs: r.Multi}
+			fh := &vh.FakeHandler{ID: "m0", Accept: r.Outcome != "noauth", Log: &vh.HandlerLog{}, Agent: agent.NewClient(conn), NKeys: 1, NReqs: r.Multi, KeyAlgo: r.KeyAlgo, PrivLabel: r.PrivLabel}
 			h = fh
 		} else if reuse {
 			h = lastReal
@@ -245,8 +262,24 @@ func exec(c Case) (vh.Outcome, error) {
 		if r.Outcome == "cadelay" {
 			runCtx, runCancel = context.WithTimeout(context.Background(), 150*time.Millisecond)
 		}
+		var m0, m1 runtime.MemStats
+		runtime.ReadMemStats(&m0)
 		cr := vh.Catch(func() { runErr = gensign.Run(runCtx, param, []gensign.Handler{h}, ca) })
 		runCancel()
+		runtime.ReadMemStats(&m1)
+		// handing n certificates with short comments to the agent is a linear job of a few hundred KiB
+		// (plus key generation); a run whose memory use grows faster than that cannot succeed for replies a
+		// little larger ("every number of certificates and comments")
+		nReplies := r.NCerts
+		if r.Multi > 0 {
+			nReplies *= r.Multi
+		}
+		if used := (m1.TotalAlloc - m0.TotalAlloc) >> 20; used > 16 {
+			out.Classes = append(out.Classes, fmt.Sprintf("run-allocated>%dMiB", 16<<(bits.Len64(used/16)-1)))
+		}
+		if used, budget := (m1.TotalAlloc-m0.TotalAlloc)>>20, uint64(64+nReplies); used > budget {
+			return out, vh.Errf("%s: the run allocated %d MiB for %d certificate(s) with %d comment(s) (budget %d MiB: 64 MiB for key generation and the run itself plus 1 MiB per certificate): memory use is not linear in the CA's reply", where, used, nReplies, len(r.Comments), budget)
+		}
 		if r.Outcome == "cadelay" {
 			if runErr == nil {
 				r.Outcome = "ok" // the run waited for the CA: a late, ordinary success
@@ -390,7 +423,7 @@ func equal(a, b []string) bool {
 	return true
 }
 
-const rule = "histories against one recording keyring agent: 0..5 pre-existing identities (plain RSA / ECDSA / Ed25519 keys and foreign certificates whose comments are near-misses of the handler label: other case, truncation, '-' for '.', missing first letter, 'private-key', empty, non-ASCII; comments containing the exact handler name are not generated), then 1..6 runs - of the real handler (a third of the later ones through the handler object and forwarded connection an earlier run built, class handler-object-reused), or (a quarter) of a harness handler whose one agent key (the repository's AgentKey) carries 2..3 signing requests - each succeeding or failing {agent refuses the challenge / handler rejects, no key slot configured, CA error - for several requests: on the last one, after the earlier ones were signed -, the agent refusing to remove an identity of the previous generation, the agent refusing one certificate insertion, a CA that answers 300 ms after the caller's context ended (late success, or a failure after which the agent is looked at 700 ms later)}, the CA returning 1..3 certificates (validity window as requested, or without expiry, or valid until 2^63 s, or stamped by a CA clock 90 s ahead) with 0..n+1 comments (present / empty / containing the handler name), validity from {1, 2, 3599, 3600, 43200, 2^31, 315360000} or random in 1 s..10 y. Oracle after a successful run: the new private key and every returned certificate are listed, signing with each certificate yields a signature verifying under its key, every AddedKey the agent received has 0 < lifetime and lifetime >= validity, certificates of the earlier generation are absent, the certificate set is exactly foreign + this generation, every pre-existing identity is present with identical blob and comment; after a failing run the certificate set is unchanged. Non-trivial: >= 2 successful runs or a failure after a success, with >= 1 pre-existing identity."
+const rule = "histories against one recording keyring agent: 0..5 pre-existing identities (plain RSA / ECDSA / Ed25519 keys and foreign certificates whose comments are near-misses of the handler label: other case, truncation, '-' for '.', missing first letter, 'private-key', empty, non-ASCII; comments containing the exact handler name are not generated), then 1..6 runs - of the real handler (a third of the later ones through the handler object and forwarded connection an earlier run built, class handler-object-reused), or (a quarter) of a harness handler whose one agent key (the repository's AgentKey) carries 2..3 signing requests, with the key-pair algorithm (default, RSA-2048, rarely RSA-4096, P-256 / 384 / 521, Ed25519) and the private-key label drawn - each succeeding or failing {agent refuses the challenge / handler rejects, no key slot configured, CA error - for several requests: on the last one, after the earlier ones were signed -, the agent refusing to remove an identity of the previous generation, the agent refusing one certificate insertion, a CA that answers 300 ms after the caller's context ended (late success, or a failure after which the agent is looked at 700 ms later)}, the CA returning 1..3 (one run in 30: 8 / 16 / 20) certificates (validity window as requested, or without expiry, or valid until 2^63 s, or stamped by a CA clock 90 s ahead) with 0..n+1 comments (present / empty / containing the handler name), validity from {1, 2, 3599, 3600, 43200, 2^31, 315360000} or random in 1 s..10 y, the handler's 'key_label' option left out or set (the default, another text, the handler name, a text with a space). Oracle after a successful run: the new private key and every returned certificate are listed, signing with each certificate yields a signature verifying under its key, every AddedKey the agent received has 0 < lifetime and lifetime >= validity, the run allocated no more than 64 MiB + 1 MiB per returned certificate, certificates of the earlier generation are absent, the certificate set is exactly foreign + this generation, every pre-existing identity is present with identical blob and comment; after a failing run the certificate set is unchanged. Non-trivial: >= 2 successful runs or a failure after a success, with >= 1 pre-existing identity."
 
 func TestC03Provision(t *testing.T) {
 	vh.Run(t, vh.Spec[Case]{Property: "C03", Name: "TestC03Provision", Rule: rule, Gen: gen, Exec: exec})
